@@ -20,7 +20,6 @@ import (
 	"errors"
 	"fmt"
 	"math"
-	"math/big"
 	"os"
 	"path/filepath"
 	"sort"
@@ -177,7 +176,7 @@ type observer struct {
 	client  *ethclient.Client
 	done    chan struct{}
 	runErr  error
-	closing bool
+	gen     int // session generation: calls of an ended session leave the gate
 	// shadow of the cursor in ABSTRACT block numbers (EventSyncer.FromBlock / FromLogIndex and the
 	// loop's fromBlock); used ONLY to know how long to wait for a page, never as an oracle
 	sessFb, sessFl, curFrom int
@@ -389,15 +388,17 @@ func (w *World) concretise(e Ev) fakeeth.LogSpec {
 		l = fakeeth.PackEvent(coABI, addrCoCfg, "NewConfig", u64tok(e.Act), set, u64tok(e.Idx))
 	}
 	switch e.C {
-	case "short": // rotate through: one byte short / one word short / no data
+	case "short": // rotate through: one byte short / one word short / one byte only
 		switch (e.Pos + e.Idx + int(w.Seed)) % 3 {
 		case 0:
 			l.Data = l.Data[:len(l.Data)-1]
 		case 1:
 			l.Data = l.Data[:len(l.Data)-32]
 		default:
-			l.Data = []byte{}
+			l.Data = l.Data[:1]
 		}
+	case "nodata":
+		l.Data = []byte{}
 	case "wide": // a uint64 word with a bit above 2^64: the first / the last word
 		d := append([]byte{}, l.Data...)
 		if (e.Pos+int(w.Seed))%2 == 0 {
@@ -531,16 +532,18 @@ func (o *observer) rpcHook(c fakeeth.Call) error {
 		if o.active && o.f.K == "rpcB" && o.rpcBOn { // keeps failing until the retry gives up
 			return errInjected
 		}
+		gen := o.gen
 		o.atGate = true
 		o.cond.Broadcast()
-		for o.permits == 0 && !o.closing {
+		for o.permits == 0 && o.gen == gen {
 			o.cond.Wait()
+		}
+		if o.gen != gen { // the session this call belongs to is over
+			o.cond.Broadcast()
+			return errors.New("verif: session closed")
 		}
 		o.atGate = false
 		o.cond.Broadcast()
-		if o.closing {
-			return errors.New("verif: node closed")
-		}
 		o.permits--
 		if o.active && o.f.K == "rpcB" {
 			o.rpcBOn, o.fired = true, true
@@ -818,7 +821,7 @@ func (o *observer) start(f FaultJ) (ret string, detail string) {
 	pr := o.project()
 	o.mu.Lock()
 	o.startFail = f.K == "db"
-	o.closing = false
+	o.gen++
 	o.atGate, o.permits, o.served = false, 0, 0
 	o.unbounded, o.panicked = false, ""
 	o.mu.Unlock()
@@ -906,7 +909,8 @@ func (o *observer) cleanup() {
 func (o *observer) kill() bool {
 	o.mu.Lock()
 	cancel, done := o.cancel, o.done
-	o.closing = true
+	o.gen++
+	o.atGate = false
 	o.cond.Broadcast()
 	o.mu.Unlock()
 	if cancel != nil {
